@@ -131,7 +131,7 @@ def correspondence(ctx):
         return
     ctx.sample({"roles": meta[len(meta) // 2][0], "loop": meta[len(meta) // 2][1],
                 "schedule": list(meta[len(meta) // 2][2]), "coq": exprs[len(meta) // 2]})
-    bad = ctx.coq_eval("lock", IMPORTS, exprs, shard=400)
+    bad = ctx.coq_eval("lock", IMPORTS, exprs, shard=400, preamble="Open Scope nat_scope.")
     if bad is None:
         return
     ctx.traces += len(exprs)
@@ -187,10 +187,10 @@ def _search_lock(ctx):
 
 
 def _points(ctx, n, full):
-    if full or n <= 120:
+    if full or n <= 200:
         return list(range(n))
-    pts = set(range(12)) | set(range(n - 12, n)) | set(range(n // 2 - 3, n // 2 + 3))
-    while len(pts) < min(n, ctx.budget(45, 400)):
+    pts = set(range(16)) | set(range(n - 16, n)) | set(range(n // 2 - 4, n // 2 + 4))
+    while len(pts) < min(n, ctx.budget(120, 400)):
         pts.add(ctx.rng.randrange(n))
     return sorted(pts)
 
